@@ -52,8 +52,10 @@ type ClusterOpts struct {
 	MaxSearchLimit     int
 	RpcTimeout         int
 	RpcRetries         int
-	ShardTimeout       int
-	MaxCacheSize       int64
+	// ZeroRetries configures rpcRetries: 0 (what a configuration file that omits the key gets)
+	ZeroRetries  bool
+	ShardTimeout int
+	MaxCacheSize int64
 }
 
 // NewClusterNode creates (and, when serve is set, starts the RPC server of) a
@@ -74,7 +76,7 @@ func NewClusterNode(root string, me NodeSpec, servers []string, o ClusterOpts, s
 	if o.RpcTimeout == 0 {
 		o.RpcTimeout = 5
 	}
-	if o.RpcRetries == 0 {
+	if o.RpcRetries == 0 && !o.ZeroRetries {
 		o.RpcRetries = 1
 	}
 	if o.ShardTimeout == 0 {
